@@ -506,6 +506,11 @@ func Normalize(repo string, env []string) (map[string][]byte, []string, error) {
 						nc, ok = hoistCall(fset, u.file, u.call, content)
 					}
 					if !ok {
+						// the call is the right operand of && / ||: split the short-circuit
+						// into control flow first (if a && f(x) {B}  =>  if a { if f(x) {B} })
+						nc, ok = splitShortCircuit(fset, u.file, u.call, content)
+					}
+					if !ok {
 						failed[cd.name] = true
 						break
 					}
@@ -1045,4 +1050,82 @@ func simpleExpr(e ast.Expr) bool {
 // ScanDeclsFull is scanDeclsFull for the command line.
 func ScanDeclsFull(repo string) (map[string][]string, map[string][]string, map[string]string, error) {
 	return scanDeclsFull(repo)
+}
+
+// splitShortCircuit rewrites the statement containing call when the call sits in the
+// right operand of the statement's top-level && or ||, so that the call becomes
+// the whole condition / result of a statement of its own:
+//
+//	if X && Y { B }      =>  if X { if Y { B } }          (no else, no init)
+//	return X && Y        =>  if !(X) { return false }; return Y
+//	return X || Y        =>  if X { return true }; return Y
+//
+// Evaluation order and short-circuiting are unchanged.
+func splitShortCircuit(fset *token.FileSet, file *ast.File, call *ast.CallExpr, content []byte) ([]byte, bool) {
+	var stmt ast.Stmt
+	ast.Inspect(file, func(n ast.Node) bool {
+		var l []ast.Stmt
+		switch x := n.(type) {
+		case *ast.BlockStmt:
+			l = x.List
+		case *ast.CaseClause:
+			l = x.Body
+		case *ast.CommClause:
+			l = x.Body
+		}
+		for _, s := range l {
+			if s.Pos() <= call.Pos() && call.End() <= s.End() {
+				stmt = s
+			}
+		}
+		return true
+	})
+	if stmt == nil {
+		return nil, false
+	}
+	off := func(p token.Pos) int { return fset.Position(p).Offset }
+	src := func(n ast.Node) string { return string(content[off(n.Pos()):off(n.End())]) }
+	unparen := func(e ast.Expr) ast.Expr {
+		for {
+			p, ok := e.(*ast.ParenExpr)
+			if !ok {
+				return e
+			}
+			e = p.X
+		}
+	}
+	inside := func(e ast.Expr) bool { return e.Pos() <= call.Pos() && call.End() <= e.End() }
+	var repl string
+	switch x := stmt.(type) {
+	case *ast.IfStmt:
+		be, ok := unparen(x.Cond).(*ast.BinaryExpr)
+		if !ok || be.Op != token.LAND || x.Else != nil || x.Init != nil || !inside(be.Y) {
+			return nil, false
+		}
+		repl = "if " + src(be.X) + " {\nif " + src(be.Y) + " " + src(x.Body) + "\n}"
+	case *ast.ReturnStmt:
+		if len(x.Results) != 1 {
+			return nil, false
+		}
+		be, ok := unparen(x.Results[0]).(*ast.BinaryExpr)
+		if !ok || !inside(be.Y) {
+			return nil, false
+		}
+		switch be.Op {
+		case token.LAND:
+			repl = "if !(" + src(be.X) + ") {\nreturn false\n}\nreturn " + src(be.Y)
+		case token.LOR:
+			repl = "if " + src(be.X) + " {\nreturn true\n}\nreturn " + src(be.Y)
+		default:
+			return nil, false
+		}
+	default:
+		return nil, false
+	}
+	out := string(content[:off(stmt.Pos())]) + repl + string(content[off(stmt.End()):])
+	f, err := format.Source([]byte(out))
+	if err != nil {
+		return nil, false
+	}
+	return f, true
 }
